@@ -360,11 +360,33 @@ def generate(run, nsim_term, nsim_drain, with_term_sys=True, with_drain_sys=True
     return behs
 
 
-def record(run, behs, prefix="termination"):
-    bpath = os.path.join(run.work, prefix + "-behs.json")
-    json.dump(behs, open(bpath, "w"))
-    out = json.loads(run.drv("termination", ["-in", bpath, "-out", os.path.join(run.work, "traces-" + prefix), "-shards", vlib.NCPU]))
-    return out["files"]
+def record(run, behs, prefix="termination", procs=4):
+    """Replay on the real code; the behaviours are split over a few driver processes (each world is single-threaded)."""
+    import time
+    t = time.time()
+    run.build_drv()
+    parts = vlib.shard(behs, procs)
+
+    def one(i):
+        bpath = os.path.join(run.work, "%s-behs-%d.json" % (prefix, i))
+        json.dump(parts[i], open(bpath, "w"))
+        out = json.loads(run.drv("termination", ["-in", bpath, "-out", os.path.join(run.work, "traces-%s-%d" % (prefix, i)),
+                                                 "-shards", max(1, vlib.NCPU // procs)], timeout=3000))
+        return out
+    files, lines = [], 0
+    with cf.ThreadPoolExecutor(max_workers=procs) as ex:
+        for out in ex.map(one, range(len(parts))):
+            files += out["files"]
+            lines += out["lines"]
+    run.notes.append("replayed %d behaviours on the real controllers: %d events in %.1fs" % (len(behs), lines, time.time() - t))
+    return files
+
+
+def validate(run, files):
+    import time
+    t = time.time()
+    run.validate("Termination_Trace", "Termination_Trace.cfg", files, par=min(vlib.NCPU, 8), timeout=3000)
+    run.notes.append("trace validation of %d files in %.1fs" % (len(files), time.time() - t))
 
 
 def scan(files, nbehs):
